@@ -38,11 +38,9 @@ var (
 var ErrBranchReportResponseFault = errors.New("branch report response fault")
 
 func GetRMRemotingInstance() *RMRemoting {
-	if rmRemoting == nil {
-		onceGettyRemoting.Do(func() {
-			rmRemoting = &RMRemoting{}
-		})
-	}
+	onceGettyRemoting.Do(func() {
+		rmRemoting = &RMRemoting{}
+	})
 	return rmRemoting
 }
 
